@@ -391,6 +391,10 @@ func (g *GcsEmu) handleGcsUpdateMetadataRequest(ctx context.Context, baseUrl Htt
 		if err != nil {
 			return fmtErrorfCode(http.StatusBadRequest, "failed to parse request: %w", err)
 		}
+		if obj == nil {
+			// the body was the JSON value null
+			return fmtErrorfCode(http.StatusBadRequest, "failed to parse request: not an object resource")
+		}
 		// A patch cannot change what is derived from the content.
 		obj.Generation, obj.Md5Hash = gen, md5Hash
 
